@@ -219,7 +219,7 @@ Proof.
   unfold bf_min.
   destruct (astar_kernel xc_zero xc_add xc_sqrtZ xc_ofZ xc_ltb h w data barriers (offsets_of conn) s g) as [| |img];
     cbn [postO post] in HO, HP; [exact HP|now apply HO|].
-  destruct HO as [HO|(a & b & E & Hr & Hab & Hopt)].
+  destruct HO as [[HO|(a & b & E & Hr & Hab & Hopt)] _].
   - rewrite HO.
     destruct (bf_all h w data barriers (offsets_of conn) s g) as [[a' b']|] eqn:Eb; [|exact Logic.I].
     apply SB in Eb.
